@@ -30,6 +30,9 @@ pub const OPS: &[&str] = &[
     "insert", "insert_bare", "insert_stats", "insert_checked", "remove", "flip_k2", "flip_k3", "flip_k2inv",
     "flip_k1_insert", "flip_k1_remove", "repair", "repair_adv",
     "flip_k1_insert_stale", "flip_k2_stale", "insert_duplicate", "remove_unknown",
+    // repair Never + periodic Delaunay check EveryN(n), after k preparatory insertions so that the
+    // measured insertion lands on every phase of the check counter
+    "insert_chk2_p0", "insert_chk2_p1", "insert_chk3_p0", "insert_chk3_p1", "insert_chk3_p2",
 ];
 
 /// everything the public API shows: vertices, cells, neighbour relation, data, counts, policies
@@ -61,6 +64,24 @@ fn prep_op<const D: usize>(dt: &mut Dt<D>, op: &str) {
     let n1 = NonZeroUsize::new(1).unwrap();
     if op == "insert_bare" { dt.set_delaunay_repair_policy(DelaunayRepairPolicy::Never); dt.set_delaunay_check_policy(DelaunayCheckPolicy::EndOnly); }
     if op == "insert_checked" { dt.set_delaunay_check_policy(DelaunayCheckPolicy::EveryN(n1)); }
+    if let Some(rest) = op.strip_prefix("insert_chk") {
+        let n = rest[..1].parse::<usize>().unwrap_or(2);
+        let k = rest[3..].parse::<usize>().unwrap_or(0);
+        dt.set_delaunay_repair_policy(DelaunayRepairPolicy::Never);
+        // preparatory insertions run unchecked so that they advance the counter whatever the state
+        dt.set_delaunay_check_policy(DelaunayCheckPolicy::EndOnly);
+        let mut r = Rng::new(0xC03 + (n * 16 + k) as u64);
+        let mut done = 0;
+        for _ in 0..(4 * k) {
+            if done == k { break; }
+            let cs: Vec<[f64; D]> = dt.vertices().map(|(_, v)| *v.point().coords()).collect();
+            let (a, b, c) = (*r.pick(&cs), *r.pick(&cs), *r.pick(&cs));
+            let mut p = [0.0f64; D];
+            for i in 0..D { p[i] = (a[i] + b[i] + 2.0 * c[i]) / 4.0 + 0.03125 * (1 + done) as f64; }
+            if catch(|| dt.insert(Vertex::new_with_uuid(Point::new(p), r.uuid(), Some(41))).is_ok()) == Ok(true) { done += 1; }
+        }
+        dt.set_delaunay_check_policy(DelaunayCheckPolicy::EveryN(NonZeroUsize::new(n).unwrap()));
+    }
 }
 
 /// run one operation; returns the outcome class: ok | err:<kind> | skipped:<kind> | panic:..
@@ -77,7 +98,7 @@ fn run_op<const D: usize>(dt: &mut Dt<D>, op: &str, rng: &mut Rng) -> String {
         p
     };
     let r: Result<Result<(), String>, String> = match op {
-        "insert" | "insert_bare" | "insert_checked" => {
+        "insert" | "insert_bare" | "insert_checked" | "insert_chk2_p0" | "insert_chk2_p1" | "insert_chk3_p0" | "insert_chk3_p1" | "insert_chk3_p2" => {
             let p = pick_pt(dt, rng);
             let v = Vertex::new_with_uuid(Point::new(p), rng.uuid(), Some(42));
             catch(|| dt.insert(v).map(|_| ()).map_err(|e| format!("err:{}", tri::err_kind(&format!("{e:?}")))))
